@@ -1,7 +1,7 @@
 """C17 — prefix registration protocol (DESIGN §4 C17)."""
 import ast
 
-from .common import (ctx, family, returns, calls_in_ctx, reach_from_succ, site, srcs_text, resolve_call, const_bool, stmt_at, full_text, bound_args, call_arg, explore)
+from .common import (ctx, family, returns, calls_in_ctx, reach_from_succ, site, srcs_text, resolve_call, const_bool, stmt_at, full_text, bound_args, call_arg, explore, path_texts, template_text)
 from ..esc import esc_of, short
 from ..flow import callee_attr
 from ..loader import AnalysisError, norm
@@ -258,42 +258,35 @@ def run(R):
     seen_prefix = {}
     for local in (True, False):
         def loc_atom(e, local=local):
+            if isinstance(e, ast.UnaryOp) and isinstance(e.op, ast.Not):
+                v_ = loc_atom(e.operand)
+                return None if v_ is None else (not v_)
+            if isinstance(e, ast.Constant) and isinstance(e.value, bool):
+                return e.value
             t = full_text(mk, e)
             if t.endswith('.isLocalFace()'):
                 return local
-            if 'isLocalFace()' in t and isinstance(e, ast.IfExp):
+            if isinstance(e, ast.IfExp) and 'isLocalFace()' in t:
+                # `face.isLocalFace() if face else True`
+                tt = loc_atom(e.test)
+                if tt is not None:
+                    return loc_atom(e.body if tt else e.orelse) if not isinstance(e.body if tt else e.orelse, ast.Constant) else bool((e.body if tt else e.orelse).value)
                 return None
             if t == 'face' or t == 'face is not None':
                 return True
             if t == 'face is None':
                 return False
             return None
-        reach = explore(mk, loc_atom)
+        # the text handed to Name.from_str, read back through the locals on every path possible under the valuation, as a template
         pre = set()
-        for n in mk.cfg.nodes:
-            if n.id not in reach or n.kind != 'stmt':
-                continue
-            for js in [x for x in ast.walk(n.ast) if isinstance(x, ast.JoinedStr)] if n.ast is not None else []:
-                txt = ''
-                for v in js.values:
-                    if isinstance(v, ast.Constant):
-                        txt += str(v.value)
-                    elif isinstance(v, ast.FormattedValue) and isinstance(v.value, ast.IfExp) and isinstance(v.value.body, ast.Constant) \
-                            and isinstance(v.value.orelse, ast.Constant):
-                        tt = v.value.test
-                        neg = isinstance(tt, ast.UnaryOp) and isinstance(tt.op, ast.Not)
-                        core = tt.operand if neg else tt
-                        val = loc_atom(core) if 'isLocalFace()' in full_text(mk, core) or True else None
-                        if isinstance(core, ast.Name):
-                            srcs_ = [full_text(mk, s_.expr) for s_ in mk.sources(n, core) if s_.kind == 'expr']
-                            val = local if any('isLocalFace()' in x for x in srcs_) else None
-                        if val is None:
-                            raise AnalysisError(f'make_command_v2: cannot decide `{ast.unparse(tt)}` inside the command prefix')
-                        val = (not val) if neg else val
-                        txt += str(v.value.body.value if val else v.value.orelse.value)
-                    else:
-                        txt += '{' + ast.unparse(v.value) + '}'
-                pre.add(txt)
+        fs_calls = [(n, c) for (n, c) in calls_in_ctx(mk) if ast.unparse(c.func).endswith('Name.from_str') and c.args]
+        for (n, c) in fs_calls:
+            for (txt,) in path_texts(mk, n, [c.args[0]], atom=loc_atom):
+                e_ = ast.parse(txt, mode='eval').body
+                t_ = template_text(e_, decide=loc_atom)
+                if t_ is None:
+                    raise AnalysisError(f'make_command_v2: cannot read the command prefix `{txt[:80]}` as a text template')
+                pre.add(t_)
         seen_prefix[local] = pre
     want_p = {True: {'/localhost/nfd/{module}/{command}'}, False: {'/localhop/nfd/{module}/{command}'}}
     for local in (True, False):
